@@ -84,6 +84,7 @@ pub fn observe(schema: &s::Document, doc: &q::Document, skip_merge: bool) -> J {
 
 /// run the given rules alone (and optionally the default plan)
 pub fn observe_rules(schema: &s::Document, doc: &q::Document, skip_merge: bool, rules: &[&str], with_plan: bool) -> J {
+    let t0 = std::time::Instant::now();
     let mut single = serde_json::Map::new();
     let mut panicked = false;
     for r in rules.iter() {
@@ -98,14 +99,14 @@ pub fn observe_rules(schema: &s::Document, doc: &q::Document, skip_merge: bool, 
             Err(_) => { panicked = true; }
         }
     }
-    if !with_plan { return json!({"outcome": if panicked { "panic" } else { "ok" }, "single": single, "plan": J::Null, "mergeSkipped": skip_merge}); }
+    if !with_plan { return json!({"outcome": if panicked { "panic" } else { "ok" }, "single": single, "plan": J::Null, "mergeSkipped": skip_merge, "us": t0.elapsed().as_micros() as u64}); }
     let names: Vec<&str> = RULES.iter().cloned().filter(|r| !(skip_merge && *r == "OverlappingFieldsCanBeMerged")).collect();
     let res = std::panic::catch_unwind(std::panic::AssertUnwindSafe(|| { let plan = default_rules_validation_plan(); if skip_merge { validate(schema, doc, &plan_of(&names)) } else { validate(schema, doc, &plan) } }));
     let plan_obs = match res {
         Ok(errs) => json!(errs.iter().map(|e| json!([e.error_code, render_err(e), serde_json::to_value(e).unwrap()])).collect::<Vec<_>>()),
         Err(_) => { panicked = true; J::Null }
     };
-    json!({"outcome": if panicked { "panic" } else { "ok" }, "single": single, "plan": plan_obs, "mergeSkipped": skip_merge})
+    json!({"outcome": if panicked { "panic" } else { "ok" }, "single": single, "plan": plan_obs, "mergeSkipped": skip_merge, "us": t0.elapsed().as_micros() as u64})
 }
 
 /// the same in a child process (a stack overflow of the merge rule aborts the process)
@@ -126,6 +127,40 @@ pub fn observe_isolated(si: &gen::SchemaInfo, text: &str, tmpdir: &str) -> J {
             None => json!({"outcome": "crash"}),
         },
     }
+}
+
+/// (number of selection nodes, maximal selection nesting) of a document
+pub fn size_depth(doc: &q::Document) -> (usize, usize) {
+    fn sel(ss: &q::SelectionSet, depth: usize, n: &mut usize, maxd: &mut usize) {
+        if !ss.items.is_empty() && depth > *maxd { *maxd = depth; }
+        for x in &ss.items {
+            *n += 1;
+            match x {
+                q::Selection::Field(f) => sel(&f.selection_set, depth + 1, n, maxd),
+                q::Selection::FragmentSpread(_) => {}
+                q::Selection::InlineFragment(f) => sel(&f.selection_set, depth + 1, n, maxd),
+            }
+        }
+    }
+    let (mut n, mut maxd) = (0usize, 0usize);
+    for d in &doc.definitions {
+        n += 1;
+        match d {
+            q::Definition::Fragment(f) => sel(&f.selection_set, 1, &mut n, &mut maxd),
+            q::Definition::Operation(o) => { use graphql_tools::ast::OperationDefinitionExtension; sel(o.selection_set(), 1, &mut n, &mut maxd) }
+        }
+    }
+    (n, maxd)
+}
+
+/// a whole-plan case with size, depth and time, every run in a child process when the document is cyclic
+pub fn termination_case(si: &gen::SchemaInfo, text: &str, tmpdir: &str, family: &str, out: &mut Out) {
+    let doc = match gen::parse_doc(text) { Some(d) => d, None => return };
+    let cyclic = is_cyclic(&doc);
+    let (nodes, depth) = size_depth(&doc);
+    let obs = if cyclic { observe_isolated(si, text, tmpdir) } else { observe(&si.doc, &doc, false) };
+    out.push(json!({"op": "validate", "src": text, "doc": enc::document(&doc), "cyclic": cyclic, "impl": obs,
+        "meta": {"nodes": nodes, "depth": depth, "family": family}}));
 }
 
 /// positions of all nodes of the wire AST (every `[line, col]` in a position slot)
